@@ -314,7 +314,7 @@ var parseLayoutCheck = hx.NewCheck("parse_layout_invariant", oracleParseLayout)
 func TestParseLayoutInvariant(t *testing.T) {
 	hx.Rule("parse_layout_invariant", "G-SQL statement tokens rendered once with single spaces and once with drawn separators (none where legal, newlines, tabs, line/block comments) and re-drawn keyword case; both must get the same verdict and the same tree (strings case-folded); non-trivial = the second layout has a comment or an abutting pair; distinct = separator classes + token count")
 	parseLayoutCheck.Rapid(t, hx.N(60000, 600000), func(rt *rapid.T) ParseLayoutCase {
-		sf := sqlgen.AllFeatures()
+		sf := sqlgen.FullFeatures()
 		g := sqlgen.New(rt, sf)
 		st := sqlgen.Statement(g)
 		lx := sqlgen.Lexemes(st.Toks)
